@@ -18,6 +18,8 @@ def run(ctx):
         {"scens": wcat.first_handle_scenarios(), "policies": ("FIFO", "LIFO", "JOBS"), "bound": 1},
         {"scens": wcat.rerun_scenarios(), "policies": ("FIFO", "LIFO", "JOBS"), "bound": 1},
         {"scens": wcat.token_and_dependency_scenarios(), "policies": ("FIFO", "LIFO"), "bound": 1, "demote": True},
+        # the token defined again by a second process with a larger capacity while a job waits for more than the old one; real and coarse time stamps
+        {"scens": wcat.token_redefined_scenarios(), "policies": ("FIFO", "LIFO") + wcat.POL_PROC[:2] + wcat.POL_EAGER, "bound": 1},
         {"scens": wcat.token_again_scenarios(), "policies": ("FIFO", "JOBS"), "bound": 1, "demote": True},
         {"scens": wcat.latejoin_scenarios(failing=True), "policies": ("FIFO", "FIFO+rev"), "bound": 1},
         {"scens": wcat.dag_scenarios(3, rotations=(0,), with_failures=True, all_orders=False), "policies": ("FIFO",), "bound": 1 if not q else 0},
